@@ -147,7 +147,7 @@ def grammar_case(tier, seed, index, spec=None):
     cls = G.CLASSES[index % len(G.CLASSES)]
     if spec is None:
         forced = [rng.choice(G.FORCED), rng.choice(['nt-without-rules', 'unreachable-nt', 'plain'])]
-        spec = G.gen_spec(rng, cls, forced, allow_inf=False)
+        spec = G.gen_spec(rng, cls, forced, allow_inf=False) if index % 7 != 3 else G.gen_private_dependency_spec(rng, wdomain='real')
         if index % 3 == 1:
             # a nonterminal that is only declared: no rule, on no right-hand side
             lab = rng.choice(sorted(spec['domains']))
@@ -181,55 +181,108 @@ def grammar_case(tier, seed, index, spec=None):
                     viols.append(C.viol('scc-on-grammar', '; '.join(bad[:3])))
     # (iii) solve-order trace
     trace = []
+    nsccs = 0
+
+    def order_check(fgg2, spec_, S, tag=''):
+        """sum_products on fgg2 under the hook: every nonterminal of spec_ gets a value, is solved once, after its dependencies"""
+        want_ = G.nt_graph(spec_)
+        trace.clear()
+        out = C.call(lambda: fggs.sum_products(fgg2, semiring=G.make_semiring(fggs, S, torch.float64), kmax=3, tol=1e-3))
+        if not out['ok']:
+            viols.append(C.viol(f"sum_products-exception{tag}:{out['exc_type']}:{out.get('where', '')}", out['exc'], traceback=out['tb']))
+            return
+        keys = {k.name for k in out['value']}
+        if S == 'real' and not tag:
+            # every nonterminal receives a value, the start symbol in particular (zero when it has no rules)
+            ntrace = len(trace)
+            oz = C.call(lambda: fggs.sum_product(fgg2, semiring=G.make_semiring(fggs, S, torch.float64), kmax=3, tol=1e-3))
+            del trace[ntrace:]          # the order check below is about the sum_products call
+            if not oz['ok']:
+                viols.append(C.viol(f"sum_product-exception:{oz['exc_type']}:{oz.get('where', '')}", oz['exc'], traceback=oz['tb']))
+            elif not any(r['lhs'] == spec_['start'] for r in spec_['rules']) and bool((oz['value'].to_dense() != 0).any()):
+                viols.append(C.viol('start-without-rules-nonzero', f'start symbol has no rules but sum_product = {oz["value"].to_dense().tolist()}'))
+        missing = set(spec_['nonterminals']) - keys
+        if missing:
+            viols.append(C.viol('nonterminal-without-value' + tag, f'sum_products lacks {sorted(missing)}'))
+        solved = set()
+        dep = G.reach(want_)
+        for ins, outs, method in trace:
+            for n in outs:
+                if n in solved:
+                    viols.append(C.viol('solved-twice' + tag, f'{n} solved twice; trace={trace}'))
+            for n in outs:
+                need = {m for m in dep[n] if m not in outs}
+                if not need <= solved:
+                    viols.append(C.viol('solved-before-dependency' + tag, f'{outs} solved before {sorted(need - solved)}; trace={trace}'))
+            for m in ins:
+                if m in spec_['nonterminals'] and m not in solved:
+                    viols.append(C.viol('input-not-yet-solved' + tag, f'{m} used as input before being solved'))
+            solved.update(outs)
+        if solved != set(spec_['nonterminals']):
+            viols.append(C.viol('nonterminal-never-solved' + tag, f'never solved: {sorted(set(spec_["nonterminals"]) - solved)}'))
+
+    edited = False
     with Hooks() as h:
         def on_call(a, k):
             # apply_to_patterned_tensors(fgg, opts, in_labels, out_labels, *in_values)
             trace.append(([l.name for l in a[2]], [l.name for l in a[3]], a[1].get('method')))
         h.spy(SP.SumProduct, 'apply_to_patterned_tensors', on_call=on_call, key='apply_to_patterned_tensors', static=True)
         for S in ('real', 'bool'):
-            trace.clear()
-            fgg2, _ = G.build_fgg(fggs, spec, S, torch.float64, rule_order=order, ghost_rng=G.rng_for(seed, 'C19ghost', tier, index) if index % 2 else None, **opts)
-            out = C.call(lambda: fggs.sum_products(fgg2, semiring=G.make_semiring(fggs, S, torch.float64), kmax=3, tol=1e-3))
-            if not out['ok']:
-                viols.append(C.viol(f"sum_products-exception:{out['exc_type']}:{out.get('where', '')}", out['exc'], traceback=out['tb']))
-                continue
-            keys = {k.name for k in out['value']}
-            if S == 'real':
-                # every nonterminal receives a value, the start symbol in particular (zero when it has no rules)
-                ntrace = len(trace)
-                oz = C.call(lambda: fggs.sum_product(fgg2, semiring=G.make_semiring(fggs, S, torch.float64), kmax=3, tol=1e-3))
-                del trace[ntrace:]          # the order check below is about the sum_products call
-                if not oz['ok']:
-                    viols.append(C.viol(f"sum_product-exception:{oz['exc_type']}:{oz.get('where', '')}", oz['exc'], traceback=oz['tb']))
-                elif not any(r['lhs'] == spec['start'] for r in spec['rules']) and bool((oz['value'].to_dense() != 0).any()):
-                    viols.append(C.viol('start-without-rules-nonzero', f'start symbol has no rules but sum_product = {oz["value"].to_dense().tolist()}'))
-            missing = set(spec['nonterminals']) - keys
-            if missing:
-                viols.append(C.viol('nonterminal-without-value', f'sum_products lacks {sorted(missing)}'))
-            solved = set()
-            dep = G.reach(want)
-            for ins, outs, method in trace:
-                for n in outs:
-                    if n in solved:
-                        viols.append(C.viol('solved-twice', f'{n} solved twice; trace={trace}'))
-                for n in outs:
-                    need = {m for m in dep[n] if m not in outs}
-                    if not need <= solved:
-                        viols.append(C.viol('solved-before-dependency', f'{outs} solved before {sorted(need - solved)}; trace={trace}'))
-                for m in ins:
-                    if m in spec['nonterminals'] and m not in solved:
-                        viols.append(C.viol('input-not-yet-solved', f'{m} used as input before being solved'))
-                solved.update(outs)
-            if solved != set(spec['nonterminals']):
-                viols.append(C.viol('nonterminal-never-solved', f'never solved: {sorted(set(spec["nonterminals"]) - solved)}'))
+            fgg2, info2 = G.build_fgg(fggs, spec, S, torch.float64, rule_order=order, ghost_rng=G.rng_for(seed, 'C19ghost', tier, index) if index % 2 else None, **opts)
+            order_check(fgg2, spec, S)
+            nsccs += len(trace)
+            if S == 'real' and index % 2 == 0 and not viols:
+                # (iv) the same grammar object is edited after it has been evaluated -- a nonterminal edge is added to an
+                # existing right-hand side (its label is already known to the grammar), or a rule is added -- and evaluated
+                # again: graph, components and solve order must be those of the edited grammar
+                import copy as _copy
+                spec2 = _copy.deepcopy(spec)
+                cands = []
+                for ri, r in enumerate(spec['rules']):
+                    for Y, typ in spec['nonterminals'].items():
+                        if all(any(l == lab for l in r['nodes']) for lab in typ):
+                            cands.append((ri, Y))
+                if cands:
+                    ri, Y = rng.choice(cands)
+                    r = spec['rules'][ri]
+                    att = [rng.choice([v for v, l in enumerate(r['nodes']) if l == lab]) for lab in spec['nonterminals'][Y]]
+                    if rng.random() < 0.6:
+                        spec2['rules'][ri]['edges'].append([Y, att])
+                        info2['rules'][ri].rhs.add_edge(fggs.Edge(info2['el'][Y], [info2['nodes'][ri][v] for v in att]))
+                        how = 'edge added to an existing right-hand side'
+                    else:
+                        newr = dict(lhs=r['lhs'], nodes=list(r['nodes']), ext=list(r['ext']), edges=[[Y, att]])
+                        spec2['rules'].append(newr)
+                        gnew = fggs.Graph()
+                        nn = [fggs.Node(info2['nl'][l]) for l in newr['nodes']]
+                        for x in nn:
+                            gnew.add_node(x)
+                        gnew.add_edge(fggs.Edge(info2['el'][Y], [nn[v] for v in att]))
+                        gnew.ext = [nn[v] for v in newr['ext']]
+                        fgg2.add_rule(fggs.HRGRule(info2['el'][r['lhs']], gnew))
+                        how = 'rule added'
+                    edited = True
+                    o3 = C.call(U.nonterminal_graph, fgg2)
+                    want3 = G.nt_graph(spec2)
+                    if not o3['ok']:
+                        viols.append(C.viol(f"ntgraph-exception:after-edit:{o3['exc_type']}", o3['exc'], how=how))
+                    else:
+                        got3 = {k.name: sorted(x.name for x in v) for k, v in o3['value'].items()}
+                        if got3 != {k: sorted(v) for k, v in want3.items()}:
+                            viols.append(C.viol('ntgraph-relation:after-edit', f'{how}: nonterminal_graph={got3} expected={ {k: sorted(v) for k, v in want3.items()} }'))
+                    nv = len(viols)
+                    order_check(fgg2, spec2, S, tag=':after-edit')
+                    for v in viols[nv:]:
+                        v['how'] = how
+                        v['edited_spec'] = spec2
         hooks = dict(h.count)
     for v in viols:
         v['spec'] = spec
     nt = len(spec['nonterminals'])
     return dict(cls='grammar-' + cls, features=sorted(G.features_of(spec)) + (['rhs-with-removed-edge-or-unused-label'] if index % 2 else []) + (['nt-never-mentioned'] if 'N_never' in spec['nonterminals'] else [])
-                + (['start-without-rules'] if not any(r['lhs'] == spec['start'] for r in spec['rules']) else []) + (['no-rules-at-all'] if not spec['rules'] else []), verdict='violated' if viols else 'held',
+                + (['start-without-rules'] if not any(r['lhs'] == spec['start'] for r in spec['rules']) else []) + (['no-rules-at-all'] if not spec['rules'] else []) + (['edited-after-evaluation'] if edited else []), verdict='violated' if viols else 'held',
                 key=G.spec_key(spec), nontrivial=nt >= 2, violations=viols, hooks=hooks,
-                sample=dict(spec=G.describe(spec)), obs=dict(grammars=1, sccs_traced=len(trace)))
+                sample=dict(spec=G.describe(spec)), obs=dict(grammars=1, sccs_traced=nsccs, edited_after_evaluation=int(edited)))
 
 
 def replay(rep):
